@@ -355,7 +355,8 @@ def bool_edges(body, value_site=None, value_expr_pred=None):
             neg = True
             e = e.a[0]
         hit = False
-        if value_site is not None and e.x.get("site") == value_site:
+        es = e.strip() if e.k in ("field", "ref", "deref", "cast", "phi") else e      # the value seen through `Ok(v)?`, borrows, copies
+        if value_site is not None and (e.x.get("site") == value_site or (es.k == "call" and es.x.get("site") == value_site)):
             hit = True
         if value_expr_pred is not None and value_expr_pred(e):
             hit = True
